@@ -16,7 +16,7 @@
 
 namespace {
 
-constexpr int MAXT = 8;
+constexpr int MAXT = 12;   // main + up to 11 managed threads (a 9-thread scenario exists: per-thread state handed out modulo 8)
 enum { RUNNABLE = 1, BLK_JOIN, BLK_MUTEX, BLK_GUARD, DONE };
 enum { K_START = 0, K_OP, K_ATOMIC, K_GUARD, K_MUTEX, K_JOIN, K_END };
 
